@@ -11,10 +11,17 @@ that file with the reference recursive-descent parser; fuel is never the reason 
 all spellings are covered at once.  `C07_default_impl` ties the declared structs to their
 default bindings; `C07_lexer_lines` (in C11) bounds the lexer's line bookkeeping.
 
-Still by correspondence only (hence the level note stays "partial"): the character level —
-that the lexer maps a text with any whitespace and comments to the token list of its
-printing — and that the real Lark/Earley front end agrees with the reference parser; both are
-exercised on every run on generated texts under three formatting regimes.
+Proved at **character level** for the reference front end as well: `C07_lex_print` — the
+lexer maps every printing of a token list (relation `Render`: any run of spaces, tabs, line
+feeds, `//` and `/* */` comments before each token and at the end of the text; identifiers;
+numbers with sign, fraction and exponent; string literals with escapes; the thirteen symbols;
+every token followed by something that cannot continue it) back to exactly that list with the
+line each token starts on; `C07_text_to_file` composes the two levels: a text that prints the
+tokens of a printing of `pf` parses to `pf`.
+
+Still by correspondence only (hence the level note stays "partial"): that the real
+Lark/Earley front end agrees with the reference lexer and parser; exercised on every run on
+generated texts under three formatting regimes.
 -/
 namespace Fcp
 open Syntax
@@ -77,5 +84,36 @@ theorem C07_file_printing : ∃ ts, FileToks C07_file ts ∧ ts.length = 34 :=
     (.cons _ _ _ _ (.impl "can" "S" (some "T") [.field "id" (.num "10")] 4 4 4 4 4 4 _ _
         (.bare "T" 4 (by decide)) (.field "id" (.num "10") 4 4 4 _ [] [] (.num "10" 4) .nil) (by simp))
       .nil))), by simp⟩
+
+/-- **character level, lexer**: every printing of a token list — any run of spaces, tabs, line
+feeds, `//` and `/* */` comments before each token and at the end, identifiers, numbers with
+sign / fraction / exponent, string literals with escapes, the thirteen symbols, each token
+followed by something that cannot continue it — lexes back to exactly that token list, with
+the line every token starts on -/
+theorem C07_lex_print (ts : List LTok) (cs : List Char) (h : Render ts 1 cs) :
+    Syntax.lex (String.ofList cs) = .ok ts :=
+  lex_render ts cs h
+
+/-- **from characters to the tree**: a text that prints the tokens of a printing of the file
+`pf` is parsed to `pf` by the reference front end (lexer, then recursive descent) -/
+theorem C07_text_to_file (pf : PFile) (ts : List LTok) (cs : List Char) (hr : Render ts 1 cs)
+    (hf : FileToks pf ts) : parseText (String.ofList cs) = .ok pf := by
+  rw [parseText, lex_render ts cs hr]
+  exact parseFile_print pf ts hf
+
+/-! non-vacuity: the text `x1 /* c */// k⏎-2.5e+3,"q\"" ` prints four tokens on two lines -/
+example : Render [⟨.ident "x1", 1⟩, ⟨.num "-2.5e+3", 2⟩, ⟨.sym ',', 2⟩, ⟨.str "q\\\"", 2⟩] 1
+    (['x', '1'] ++ ([' ', '/', '*', ' ', 'c', ' ', '*', '/', '/', '/', ' ', 'k', '\n'] ++
+      (['-', '2', '.', '5', 'e', '+', '3'] ++ ([','] ++ (['"', 'q', '\\', '"', '"'] ++ [' ']))))) :=
+  .cons [] 0 _ ['x', '1'] _ _ 1 .nil (.ident 'x' ['1'] (by decide) (by decide)) (by unfold TokSep; decide)
+    (.cons [' ', '/', '*', ' ', 'c', ' ', '*', '/', '/', '/', ' ', 'k', '\n'] 1 _
+      ['-', '2', '.', '5', 'e', '+', '3'] _ _ 1
+      (.space _ _ (.block [' ', 'c', ' '] _ 1 (by decide) (.line [' ', 'k'] [] 0 (by decide) .nil)))
+      (.snum '-' ['2'] ['.', '5'] ['e', '+', '3'] (.inr rfl) (by decide) (by decide) (.some ['5'] (by decide))
+        (.mk 'e' ['+'] ['3'] (.inl rfl) (.inr (.inl rfl)) (by decide) (by decide)))
+      (by unfold TokSep; decide)
+      (.cons [] 0 _ [','] _ _ 2 .nil (.sym ',' (by decide)) (by intro h; cases h)
+        (.cons [] 0 _ ['"', 'q', '\\', '"', '"'] _ _ 2 .nil (.str ['q', '\\', '"'] (by decide)) trivial
+          (.nil [' '] 0 2 (.space _ _ .nil)))))
 
 end Fcp
